@@ -68,8 +68,12 @@ def receiver(case):
     """First of {drawn receiver, target 0, target 1} that is within 45 NM and < 44 deg of longitude of both targets."""
     cands = [destination(case["lat0"], case["lon0"], case["rdist"], case["rbrg"]),
              (case["lat0"], case["lon0"]), (case["lat1"], case["lon1"])]
-    if case.get("int_receiver"):  # a receiver configured in whole degrees (Python ints)
-        cands.insert(0, (int(round(case["lat0"])), int(round(case["lon0"])) if round(case["lon0"]) != 180 else -180))
+    if case.get("int_receiver"):  # a receiver configured in whole degrees: Python ints, or numpy integers of any width that holds the value
+        import numpy as np
+        rl_, ro_ = int(round(case["lat0"])), (int(round(case["lon0"])) if round(case["lon0"]) != 180 else -180)
+        kinds = [int, int, np.int16, np.int32, np.int64] + ([np.int8, np.int8] if abs(ro_) <= 127 else [])
+        conv = kinds[case["ctx_bits1"] % len(kinds)]
+        cands.insert(0, (conv(rl_), conv(ro_)))
     for rl, ro in cands:
         if all(cpr.haversine_m(la, lo, rl, ro) <= 44.9 * cpr.NM and cpr.lon_diff(lo, ro) <= 44.0
                for (la, lo) in ((case["lat0"], case["lon0"]), (case["lat1"], case["lon1"]))):
